@@ -66,6 +66,9 @@ def conform7(x, y, z, trans, vcv=None):
     # Adapted from Harvey B.R. (1998) Practical least squares and statistics for surveyors,
     # Monograph 13 Section 8.7.2, p.274
     if (type(trans.tf_sd) == TransformationSD) and (vcv is not None):
+        # a 3x1 column of variances is a diagonal covariance
+        if vcv.shape == (3, 1):
+            vcv = np.diag(vcv[:, 0])
         # Q matrix:
         q_mat = np.zeros((10, 10))
         # xyz_before vcv
